@@ -12,24 +12,13 @@ TRUSTED_BASE = [
 
 PROPS = {}
 
-PROPS["C18"] = {
-    "glue": "G18", "chk": "chk18", "explain": "explain18",
-    "n": {"quick": 1500, "thorough": 60000},
-    "rule": "cases = NewHook configurations (grid over invalid/valid probability x delta) and HandleAnnounce calls on crafted "
-            "(generator state sums 0, 2^63, 2^64-1, overflow; second draw forced to 2^63 and neighbours by inverting the xorshift step; "
-            "first residue at threshold-1/threshold/threshold+1) and random (infohash, peer ID) x probability x max delta x modify_min_interval; "
-            "a case is non-trivial when the model says the response is modified (tag 1/2) or a configuration is judged (tag 10-12); distinct = distinct input JSON",
-    "tags": {"0": "hook: response left alone", "1": "hook: modified, min interval untouched", "2": "hook: modified, min interval follows",
-             "10": "config accepted", "11": "config refused: probability", "12": "config refused: delta"},
-    "trivial_tags": [0],
-    "min_tags": 5,
-    "reasons": {"1": "interval delta is not 0 or within 1..max_increase_delta whole seconds", "2": "min interval did not follow / did not stay",
-                "3": "another field of request/response/context changed", "4": "delta not a function of infohash and peer ID",
-                "5": "configuration outside (0,1] x >=1 accepted, or valid configuration refused",
-                "101": "interval differs from model", "102": "min interval differs from model", "103": "which config error differs from model"},
-    "assumptions": ["float32(v)/2^24 is exact for v < 2^24 and the float32 probability is shipped as exact mantissa*2^exponent (IEEE-754)",
-                    "Go int is 64 bit", "no int64 overflow of interval + max_delta seconds (visible hypothesis of C18_hook_effect; generators stay below 2^62 ns)"],
-    "explanation": "Theorems over Model/VarInterval.v (xorshift128+, Intn, entropy derivation, hook) proved for all inputs; "
-                   "the model is tied to middleware/varinterval + middleware/pkg/random by executing NewHook/HandleAnnounce on the generated cases and "
-                   "comparing intervals with the model evaluated by vm_compute inside Coq; property clauses are checked on the implementation's own output.",
-}
+
+import importlib.util, os, glob
+CLAIMS = {}
+for _f in sorted(glob.glob(os.path.join(os.path.dirname(os.path.abspath(__file__)), "props", "C*.py"))):
+    _n = os.path.basename(_f)[:-3]
+    _s = importlib.util.spec_from_file_location("prop_" + _n, _f)
+    _m = importlib.util.module_from_spec(_s); _s.loader.exec_module(_m)
+    PROPS[_n] = _m.PROP
+    if hasattr(_m, "CLAIM"):
+        CLAIMS[_n] = _m.CLAIM
